@@ -22,6 +22,8 @@ class EmcyConsumer:
         self.active: List["EmcyError"] = []
         self.callbacks = []
         self.emcy_received = threading.Condition()
+        #: Number of EMCYs received so far (the log may be emptied by reset())
+        self._received = 0
 
     def on_emcy(self, can_id, data, timestamp):
         code, register, data = EMCY_STRUCT.unpack(data)
@@ -34,6 +36,7 @@ class EmcyConsumer:
             else:
                 self.active.append(entry)
             self.log.append(entry)
+            self._received += 1
             self.emcy_received.notify_all()
 
         for callback in self.callbacks:
@@ -65,15 +68,19 @@ class EmcyConsumer:
         """
         end_time = time.time() + timeout
         with self.emcy_received:
-            prev_log_size = len(self.log)
+            seen = self._received
             while True:
-                # Look at every EMCY logged since the last look, oldest first
-                for emcy in self.log[prev_log_size:]:
+                # Look at every EMCY logged since the last look, oldest first.
+                # They are the last ones in the log (fewer if reset() emptied
+                # the log in the meantime)
+                log = self.log
+                new = min(self._received - seen, len(log))
+                for emcy in log[len(log) - new:]:
                     logger.info("Got %s", emcy)
                     if emcy_code is None or emcy.code == emcy_code:
                         # This is the one we're interested in
                         return emcy
-                prev_log_size = len(self.log)
+                seen = self._received
                 remaining = end_time - time.time()
                 if remaining <= 0:
                     # No valid EMCY received on time
